@@ -19,7 +19,7 @@ type c19Case struct {
 var c19Lexemes = []string{
 	"a", " ", "\n", "{{", "}}", "1", "x", "@if(", ")", "@end", `"s"`, "{{-- c --}}", "\\{{", "é", "+", "==",
 	"@else", "'t'", "\"a\nb\"", `"q\"r"`, "{{--\n--}}", "\\@if", "\r\n", "++", "2.5", ".", "(", "[", "]", "{", "}", ",",
-	"@each(", "in", "@slot", "@dump(", "\t", "^", `"`, "x1", "--", "@elseif(", "@breakIf(", "@break", "<=", "\xff", "\xa0", "\x85", "\v", "\f",
+	"@each(", "in", "@slot", "@dump(", "\t", "^", `"`, "x1", "--", "@elseif(", "@breakIf(", "@break", "<=", "\xff", "\xa0", "\x85", "\v", "\f", "\x00",
 }
 
 func c19Src(cs c19Case) string {
